@@ -378,6 +378,9 @@ def elementwise(seq, elt):
         if seq[3] and seq[3][0][0] == "const" and isinstance(seq[3][0][1], str) and not seq[4]:
             return base, ("filter", seq[3][0][1], inner, tuple(seq[3][1:]), ())
         return seq, elt
+    if seq[0] == "filter" and seq[1] == "list" and not seq[3] and not seq[4]:
+        # `.. | map(..) | list` materialises the same elements in the same order
+        return elementwise(seq[2], elt)
     return seq, elt
 
 
